@@ -197,7 +197,7 @@ def check_case(case):
 
 
 # ---- strategies ---------------------------------------------------------------------------------------------
-OPTS = {"ts_max_digits": 9, "selectors": "any", "max_optional": 7}
+OPTS = {"ts_max_digits": 9, "selectors": "any", "max_optional": 7, "toplevel_ext": True}
 HOST20 = {"type": "observed-data", "id": "observed-data--6e2d1f6a-3b0f-4a5c-8d53-1c0b8b3a9f10", "created": "2020-01-01T00:00:00.000Z",
           "modified": "2020-01-01T00:00:00.000Z", "first_observed": "2020-01-01T00:00:00Z", "last_observed": "2020-01-01T00:00:00Z",
           "number_observed": 1}
